@@ -31,7 +31,7 @@ TECHNIQUE = "runtime monitoring: record/compare of whole mapper runs under injec
 
 def gen_cases(tier, seed):
     rnd = random.Random(f"C20-{seed}")
-    n = 6 if tier == "quick" else 14
+    n = 4 if tier == "quick" else 14
     cases = []
     kinds = ["mm1", "chain2", "fanin2", "mvchain2", "mm1", "chain2"]
     for i in range(n):
@@ -102,7 +102,7 @@ def run_case(case):
         return {"status": "violation", "violations": [{"sig": "baseline_not_repeatable", "witness": {"first": vectors(base["rows"])[:10], "second": vectors(base2["rows"])[:10]}}]}
     thorough = case.get("tier") == "thorough"
     variants = []
-    n_sched = 8 if not thorough else 24
+    n_sched = 6 if not thorough else 24
     for i in range(n_sched):
         mode = ["both", "exec", "arrival"][i % 3]
         variants.append((f"schedule:{mode}", {"PYTHONHASHSEED": "0", "ACCELFORGE_VERIF_SCHEDULE_SEED": str(rnd.randrange(1, 10**9)),
